@@ -30,7 +30,7 @@ class C11(OptCheck):
     technique = "Coq proof on the spec's assignment (count = occurrences, reversal, polarity clash, closed vocabulary) transferred by refinement + translator-regenerated vocabulary table with Tie obligations + differential run over all case variants and one-edit near misses"
     level_text = 'Theorems: count = first source of [occurrences; negation; environment word; default], reversal only for reversible toggles, both polarities rejected, vocabulary closed (env_word w = Some b iff w in the 15+15 documented words), bad word = user error; Tie_C11 re-proves on every run that the word table read by clang from toggle::parse_env_value computes exactly that vocabulary for every word'
     level_note = "trusted: Coq kernel; ExtrOcamlBasic extraction + OCaml; the differential harness (generators, C++ driver through the public API under ASan/UBSan, canonical observation lines); gen/tr_vocab.py for C11. Theorem hypotheses: wf_decl (names non-empty, no '=', not starting with '-', pairwise distinct; letters neither '-' nor '='), no_clash (known finding K1: no toggle foo next to anything called no-foo), aligned state (every reachable state is: C14_reachable_aligned). Modelled, not verified: std::map name order, std::multiset::count on letters, std::getline at ';', getenv, object lifetimes, int overflow of counts (model uses Z), operator>> for typed access (exercised with as<long> on decimal texts only). The tie model=code is bounded-exhaustive + sampled, not proved"
-    rule = ("core stream + toggle stream: declarations {short or not} x {reversible or not} x {default 0,1,3} x {env bound or not}; occurrence "
+    rule = ("core stream (exhaustive short vectors over declaration-relative tokens for 12 declaration shapes; random vectors, random declarations and environments; 'steps' histories on ONE long-lived parser object — several calls, environment changes, further declarations, move construction, move assignment from a differently declared parser — each call also made on a freshly built identical parser; declarations spread over named groups in a hash-derived order) + toggle stream: declarations {short or not} x {reversible or not} x {default 0,1,3} x {env bound or not}; occurrence "
             "patterns over long, short, repeated letters, bundles with another toggle, --no- forms in all orders up to length 3; environment "
             "words: the 30 documented ones, every case variant of each, every one-edit near miss, random strings; "
             "non-trivial = token or environment present; distinct = distinct case line")
